@@ -29,6 +29,7 @@ import (
 	"strconv"
 	"strings"
 	"testing"
+	"time"
 	"unsafe"
 
 	"github.com/cilium/ebpf"
@@ -441,7 +442,8 @@ func (g *c03Gen) aliveKey(ob uint8, udp, v6 bool) uint32 {
 }
 
 var c03TimeSteps = []uint64{0, 1, 1000000, 500000000, 999999999, 1000000000, 1000000001, 1500000000, 9990000000,
-	10000000000, 10000000001, 60000000000, 119990000000, 120000000000, 120000000001, 300000000000}
+	10000000000, 10000000001, 60000000000, 119990000000, 120000000000, 120000000001, 300000000000,
+	1000000000000000}
 
 func (g *c03Gen) advance(r *VRand) {
 	dt := c03TimeSteps[r.Intn(len(c03TimeSteps))]
@@ -461,6 +463,9 @@ func (g *c03Gen) advance(r *VRand) {
 		g.stats.Inc("dt.le120s")
 	default:
 		g.stats.Inc("dt.gt120s")
+		if dt >= 1000000000000000 {
+			g.stats.Inc("dt.beyond-uptime")
+		}
 	}
 }
 
@@ -1169,6 +1174,7 @@ func c03RRString(rr *bpfRoutingResult, err error) string {
 
 func TestVerifC03Retr(t *testing.T) {
 	stats := NewVStats()
+	c03WaitUptime()
 	streams := strings.Split(os.Getenv("VERIF_C03_STREAMS"), ",")
 	connMap, err1 := ebpf.NewMap(&ebpf.MapSpec{Type: ebpf.Hash, KeySize: uint32(unsafe.Sizeof(bpfTuplesKey{})),
 		ValueSize: uint32(unsafe.Sizeof(bpfConnState{})), MaxEntries: 8192})
@@ -1283,7 +1289,7 @@ func TestVerifC03Retr(t *testing.T) {
 						if rebase && len(vv) >= 8 {
 							last := binary.NativeEndian.Uint64(vv)
 							if last != 0 {
-								binary.NativeEndian.PutUint64(vv, realNow-(shimNow+age-last))
+								binary.NativeEndian.PutUint64(vv, c03Rebase(realNow, shimNow+age-last))
 							}
 						}
 						if err := m.Put(kb, vv); err != nil {
@@ -1330,6 +1336,34 @@ func TestVerifC03Retr(t *testing.T) {
 		fc.Close()
 	}
 	stats.Write("c03retr")
+}
+
+// c03Rebase gives the CLOCK_MONOTONIC timestamp whose age at realNow is `age` (computed modulo 2^64 on the
+// harness's virtual clock): age-preserving whatever the host's uptime.
+//   - a virtual timestamp in the future of the virtual lookup time (age "negative") stays that far in the future;
+//   - an age the real clock cannot represent (older than the host's boot) becomes the oldest non-zero timestamp, 1 ns
+//     after boot — still expired, because the second pass never starts before the host has been up longer than the
+//     hand-off timeout (c03WaitUptime); 0 is never produced (it means "never written" to routingHandoffExpired).
+func c03Rebase(realNow, age uint64) uint64 {
+	if int64(age) < 0 {
+		return realNow + uint64(-int64(age))
+	}
+	if age >= realNow {
+		return 1
+	}
+	return realNow - age
+}
+
+// the "older than boot" clamp above needs an uptime beyond the timeout plus the boundary guard
+func c03WaitUptime() {
+	need := uint64(routingHandoffTimeout.Nanoseconds()) + 1000000000
+	for {
+		now, err := monotonicNowNano()
+		if err != nil || now > need {
+			return
+		}
+		time.Sleep(200 * time.Millisecond)
+	}
 }
 
 // used only when bpf(2) is not permitted: the same decisions through the real struct types, the real
